@@ -80,6 +80,8 @@ theorem stepC_inv (c : Cfg) (hg : c.GoodConc) (s s' : Sys) (a : Act) (hi : InvC 
     simp only [stepC] at h
     split at h
     · rename_i hp
+      split at h
+      · cases h
       simp only [Option.some.injEq] at h; subst h
       have hnh : s.lock ≠ some t := not_holder_of_quiet hi (by rw [hp]; trivial)
       refine ⟨fun u hu => ?_, hi.free, fun u hu => ?_⟩
